@@ -109,6 +109,9 @@ func candidates(cur *Case, dir string) []*Case {
 		if cur.Wait {
 			add(func(c *Case) bool { c.Wait = false; return true })
 		}
+		if cur.Peek {
+			add(func(c *Case) bool { c.Peek = false; return true })
+		}
 		if cur.Every2 != 0 {
 			add(func(c *Case) bool { c.Every2 = 0; return true })
 		}
@@ -392,6 +395,9 @@ func canonicalSignature(c *Case, fs []fail, class, dir string) string {
 		r := "chain.relay=" + c.Relay
 		if c.Wait {
 			r += "+wait1440"
+		}
+		if c.Peek {
+			r += "+zero-length-read-before-s2c-copy"
 		}
 		parts = append(parts, r)
 		if c.Every2 != 0 {
